@@ -58,6 +58,10 @@ claimed = {
    text="Deterministic simulation with a twin-tree differential: random mutation sequences (create of files with every open mode, directories, symlinks incl. dangling, hard links; writes; removes; wstat rename to free and occupied names, truncate, chmod, mtime) are applied through raw 9P requests to the tree exported by the real Ufs and with os/syscall calls to a twin; the trees are compared recursively after every step, error replies to create/remove must leave the tree unchanged and carry the errno of the failing POSIX call in 9P2000.u, and the fid must name the created or renamed object afterwards.",
    note="Trusts the host file system and the os/syscall package as the POSIX reference (rename(2) via syscall.Rename). Runs as root, so permission failures do not occur naturally; OS-error injection is not built (DESIGN.md §6).",
    technique="deterministic simulation: full server+Ufs stack; twin-tree differential against POSIX operations after every step"),
+ "C18": dict(level="exploration", ref="§4 C18",
+   text="Deterministic simulation of the server framework and the real Ufs with canary files and directories placed next to and above the exported root: attacking connections draw attach names, walk element lists, create names and rename targets from a grammar over '..', '.', '', '/', absolute paths, '../' chains, elements containing '/', and mixtures with real names, at the root and at random depths, and then use whatever fid resulted for stat, open, read, directory read, write, create, rename and remove. Everything outside the root must be byte-for-byte and metadata-wise unchanged, no returned qid may belong to an object outside the root (inode comparison), no read may return a canary's content, and '..' at the root must yield the root's qid.",
+   note="Trusts the host file system; precondition as in the statement: the tree contains no symlink leaving it and the generator creates none. Runs as root.",
+   technique="deterministic simulation: full server+Ufs stack under an adversarial name grammar; canary and inode oracle"),
 }
 na = {
  "C01": "pure function of (fields, dialect): no schedule, clock, fault or interleaving; deterministic simulation does not apply (DESIGN.md §1)",
